@@ -13,6 +13,9 @@ def pieces(sid, k, n, first_table=None):
     """the code pieces (one per source line) of statement sid"""
     s = str(sid)
     if k == "table":
+        if sid % 2 == 0 and n > 1:     # every second multi-line table carries literals that hold the OTHER quote character / a doubled quote
+            return {2: [f"CREATE TABLE t{s} (a{s} int DEFAULT '\"',", f"b{s} varchar(5) DEFAULT 'it''s');"],
+                    3: [f"CREATE TABLE t{s} (", f"a{s} int DEFAULT '\"', b{s} varchar(5) DEFAULT 'o''c'", ");"]}[n]
         return {1: [f"CREATE TABLE t{s} (a{s} int, b{s} varchar(5));"],
                 2: [f"CREATE TABLE t{s} (a{s} int,", f"b{s} varchar(5));"],
                 3: [f"CREATE TABLE t{s} (", f"a{s} int, b{s} varchar(5)", ");"]}[n]
